@@ -364,9 +364,13 @@ class QueryCreator(BaseQueryCreator):
                     elif i[0] == "value":
                         values = i[1]
                         if values:
-                            self.query += "?p odml:hasValue ?v .\n?v rdf:type rdf:Bag .\n"
-                            for val in values:
-                                self.query += "?v rdf:li \"{}\" .\n".format(val)
+                            # The values are exported as the members (rdf:_1, rdf:_2, ...)
+                            # of an rdf:Seq and compared by their text like the attributes.
+                            self.query += "?p odml:hasValue ?v .\n"
+                            for vidx, val in enumerate(values):
+                                self.query += "?v ?v_member{0} ?v_value{0} .\n".format(vidx)
+                                self.query += "FILTER(STR(?v_value{0}) = {1}) .\n".format(
+                                    vidx, self._literal(val))
                     else:
                         self.query += self._attribute_pattern("p", Property, i[0], i[1], idx)
 
